@@ -63,7 +63,7 @@ def with_coindex(mt):
     def rec(nd, path):
         if isinstance(nd, int):
             return nd
-        lab = nd[0] if path == () else nd[0] + '-%d' % (len(path) + 2)
+        lab = nd[0] if path == () else nd[0] + '-%d' % (len(path) + (2 if sum(path) % 2 else 11))
         return (lab, nd[1], tuple(rec(k, path + (i,)) for i, k in enumerate(nd[2])))
     return model.MT(mt.sid, mt.toks, rec(mt.root, ()))
 
@@ -238,7 +238,8 @@ def run_chunk(chunk):
                     res.sample({'binarize': model.mt_str(mt.root, mt.toks), 'bare_bin_labels': [False, True]})
         else:
             for sh, k in sweep.iter_shapes(chunk):
-                mt = model.simple_mt(sh, sid=4)
+              for lab in ('path', 'NP'):
+                mt = model.simple_mt(sh, sid=4, labels=lab, pos=(['NP'] * len(model.leaves(sh)) if lab == 'NP' else None))
                 for order in (None, 'rev'):
                     vs = check_col(mt.to_json(), order)
                     res.evals += 1
